@@ -553,7 +553,7 @@ func init() {
 	// C35 directory locks
 	register(&Scenario{Prop: "C35", Family: "seq", Level: "exploration", Gen: genLockCase,
 		Run:  func(t *testing.T, c *Case, keep bool) Outcome { return ExecuteLocks(t, c, keep) },
-		Rule: "sequences of 2-14 open-read-write / open-read-only / Close calls issued by four handles (two in this process, two in a helper child process driven over a pipe) on three directory layouts (Dir==ValueDir=A; Dir C with ValueDir B) of databases created beforehand; a lock-table model decides for every Open whether it must succeed (no conflicting holder: a read-write holder excludes everybody, read-only holders coexist) and every Close must release. No schedule is involved: the quantifier is over call orderings. non-trivial = sequence in which >=2 handles were open at once or an Open was refused",
+		Rule: "sequences of 2-14 open-read-write / open-read-only / Close calls issued by four handles (two in this process, two in a helper child process driven over a pipe) on four directory layouts (Dir==ValueDir=A; Dir C with ValueDir B; Dir D with the same ValueDir B) of databases created beforehand; a lock-table model decides for every Open whether it must succeed (no conflicting holder: a read-write holder excludes everybody, read-only holders coexist) and every Close must release. No schedule is involved: the quantifier is over call orderings. non-trivial = sequence in which >=2 handles were open at once or an Open was refused",
 		Real: []string{"dir_unix.go flock-based directory lock, Open/Close (real code) in two real processes"}, Stubs: []string{"none (no simulated scheduler: real processes in a generated, replayable order)"},
 	})
 	// C25 Stream snapshot
@@ -627,6 +627,9 @@ func init() {
 		c.Cfg.EncKeyLen = rapid.SampledFrom([]int{16, 24, 32}).Draw(t, "enc_key_len23")
 		c.Cfg.BlockCache, c.Cfg.IndexCache = true, true
 		c.Cfg.EncRotS = rapid.SampledFrom([]int{0, 1, 30, 3600}).Draw(t, "enc_rot_s")
+		if rapid.IntRange(0, 3).Draw(t, "enc_rot_subsecond") == 0 {
+			c.Cfg.EncRotMs = rapid.SampledFrom([]int{50, 300}).Draw(t, "enc_rot_ms") // several data keys per second
+		}
 		c.Cfg.EncRotateMaster = rapid.Bool().Draw(t, "enc_rotate_master")
 		c.Cfg.Compression = rapid.IntRange(0, 2).Draw(t, "compression23")
 		if c.Sched.ClockPct == 0 {
@@ -651,19 +654,20 @@ func init() {
 				synctest.Test(t, func(t *testing.T) { encryptionPost(r) })
 			})
 		},
-		Rule: "histories as in the re-open scenario (pre-fill, flushes, in 2/3 of the cases real compactors, values on both sides of the value threshold) with a 16/24/32-byte master key, data-key rotation every 1 s / 30 s / 1 h / 10 days under simulated clock jumps, compression on/off; during the run every read goes through the C01 oracle (= what the unencrypted database returns) and every (data key id, IV) pair reported by the table builder and the log writer must be new; before the final Close: full dump, Close, every file in Dir/ValueDir is scanned for every user key of >=8 bytes and for the id marker of every written value (none may occur), Open with another key of the same length must fail with ErrEncryptionKeyMismatch and leave every file hash unchanged, then (half of the cases) the master key is rotated with OpenKeyRegistry+WriteKeyRegistry as `badger rotate` does, the old key must now be refused, and the re-opened database must show the same visible state and versions as before and equal the model. non-trivial = run whose re-open was verified",
+		Rule: "histories as in the re-open scenario (pre-fill, flushes, in 2/3 of the cases real compactors, values on both sides of the value threshold) with a 16/24/32-byte master key, data-key rotation every 50 ms / 300 ms / 1 s / 30 s / 1 h / 10 days under simulated clock jumps, compression on/off; during the run every read goes through the C01 oracle (= what the unencrypted database returns) and every (data key id, IV) pair reported by the table builder and the log writer must be new; before the final Close: full dump, Close, every file in Dir/ValueDir is scanned for every user key of >=8 bytes and for the id marker of every written value (none may occur), Open with another key of the same length must fail with ErrEncryptionKeyMismatch and leave every file hash unchanged, then (half of the cases) the master key is rotated with OpenKeyRegistry+WriteKeyRegistry as `badger rotate` does, the old key must now be refused, and the re-opened database must show the same visible state and versions as before and equal the model; then a third session: the clock passes the rotation interval, probe keys are written (under a new data key), the database is closed and opened again, and everything (old data keys included) must read back. non-trivial = run whose re-open was verified",
 		Real: []string{"key_registry.go, y/encrypt.go, table builder/reader encryption, logFile encryption, Open/Close (real code)"}, Stubs: stubsCommon,
 	})
 	// C26 StreamWriter
 	p26 := profT("W-C26")
 	p26.Groups = [][]string{nil, {"client", "sw", "builder"}}
 	p26.TTL = true
+	p26.Compress, p26.Encrypt = true, true
 	register(&Scenario{Prop: "C26", Family: "W", Level: "exploration", Profile: p26, NonTrivialProbe: "sw_verified",
 		Gen: func(t *rapid.T) *Case { return genSWCase(t, p26) },
 		Run: func(t *testing.T, c *Case, keep bool) Outcome {
 			return executeWith(t, c, p26, keep, func(r *Run) { r.extra = reopenChecks }, nil)
 		},
-		Rule: "1-4 sorted streams with disjoint key ranges (keys that nest and contain 0x00/0xff, 1-3 versions each, values on both sides of the value threshold, user meta, expiry, delete and discard-earlier bits) are cut into Write calls of random size and stream interleaving, with StreamDone markers for a random subset, written by one or two client goroutines; one or two rounds (Prepare or PrepareIncremental on the empty database, then PrepareIncremental over the first round's data); the per-stream writer goroutines and table-building goroutines are scheduled actors; compression/encryption/table sizes from the swarm. Oracle after every Flush: the all-versions scan equals exactly the streamed entries (plus the earlier round), Get agrees, a new transaction reads at or above the highest streamed version, ordinary reads/commits afterwards go through the C01/C03 oracles (commit timestamps above every streamed version), and the close / read-only open / re-open cycle of C07/C11/C14 shows the same contents and structure. non-trivial = run with >=1 verified Flush",
+		Rule: "1-4 sorted streams with disjoint key ranges (keys that nest and contain 0x00/0xff, 1-3 versions each, values on both sides of the value threshold, user meta, expiry, delete and discard-earlier bits) are cut into Write calls of random size and stream interleaving, with StreamDone markers for a random subset, written by one or two client goroutines; one to three rounds (Prepare or PrepareIncremental on the empty database, then either PrepareIncremental over the earlier rounds' data or a full Prepare that drops it and rebuilds); the per-stream writer goroutines and table-building goroutines are scheduled actors; compression/encryption/table sizes from the swarm. Oracle after every Flush: the all-versions scan equals exactly the streamed entries (plus the earlier round), Get agrees, a new transaction reads at or above the highest streamed version, ordinary reads/commits afterwards go through the C01/C03 oracles (commit timestamps above every streamed version), and the close / read-only open / re-open cycle of C07/C11/C14 shows the same contents and structure. non-trivial = run with >=1 verified Flush",
 		Real: []string{"stream_writer.go, table builder, value log write path, MANIFEST, oracle reset (real code)"}, Stubs: stubsCommon,
 	})
 	// C04 own writes
